@@ -869,42 +869,53 @@ def linear_forms(prog: Program, run: Run, R: str, R_inv: str) -> None:
         run.violation(R, "LinearSegment.convert_physical_to_internal", "zero-factor",
                       "for a zero factor COMPU-INVERSE-VALUE is not returned (division by zero)",
                       inv.loc)
-    # coefficients
+    # coefficients: what the constructor receives on every path (locals inlined)
     g = prog.func("LinearSegment.from_compu_scale")
-    s = ast.unparse(g.node)
-    checks = {
-        "offset = coeffs.numerators[0]": "offset = numerators[0]",
-        "factor = 0 if len(coeffs.numerators) == 1 else coeffs.numerators[1]":
-            "factor = numerators[1] (0 if absent)",
-        "denominator = coeffs.denominators[0]": "denominator = denominators[0]",
-        "denominator = 1.0": "denominator defaults to 1",
-    }
-    for frag, what in checks.items():
-        if frag in s or (frag == "denominator = 1.0" and "denominator = 1" in s):
-            run.ok(R, "LinearSegment.from_compu_scale", what, g.loc)
-        else:
-            run.violation(R, "LinearSegment.from_compu_scale", "coefficients:" + what[:30],
-                          f"expected `{frag}`", g.loc)
-    kw = [x for x in walk_no_nested(g.node) if isinstance(x, ast.Call) and call_name(x) ==
-          "LinearSegment"]
-    if kw:
-        kws = {k.arg: ast.unparse(k.value) for k in kw[0].keywords}
-        bad = [k for k in ("offset", "factor", "denominator", "internal_lower_limit",
-                           "internal_upper_limit", "internal_type", "physical_type",
-                           "inverse_value") if kws.get(k) != k]
-        if bad:
-            run.violation(R, "LinearSegment.from_compu_scale", "cross-wired-" + bad[0],
-                          f"constructor arguments {bad} are not passed their own values "
-                          f"({ {b: kws.get(b) for b in bad} })", g.loc)
-        else:
-            run.ok(R, "LinearSegment.from_compu_scale", "every constructor argument receives its "
-                   "own value", g.loc)
-    if "internal_lower_limit = scale.lower_limit" in s and \
-            "internal_upper_limit = scale.upper_limit" in s:
-        run.ok(R, "LinearSegment.from_compu_scale", "internal limits are the scale's limits", g.loc)
+    paths = [(c, e, r) for c, e, r in symbolic_returns(g.node) if isinstance(e, ast.Call) and
+             call_name(e) == "LinearSegment"]
+    if not paths:
+        raise AnalysisError("LinearSegment.from_compu_scale: constructor call not found")
+
+    def txt(e: ast.AST) -> str:
+        t_ = " ".join(ast.unparse(e).split())
+        return t_.replace("odxrequire(scale.compu_rational_coeffs)",
+                          "scale.compu_rational_coeffs")
+    one_num = norm_test(ast.parse("len(scale.compu_rational_coeffs.numerators) == 1",
+                                  mode="eval").body)
+    has_den = norm_test(ast.parse("len(scale.compu_rational_coeffs.denominators) > 0",
+                                  mode="eval").body)
+    bad: Dict[str, str] = {}
+    for conds, e, r in paths:
+        kws = {k.arg: k.value for k in e.keywords if k.arg}
+        ctx = {norm_test(ast.parse(txt(t_), mode="eval").body, negate=not p_) for t_, p_ in conds}
+        want_kw = {
+            "offset": "scale.compu_rational_coeffs.numerators[0]",
+            "factor": "0" if one_num in ctx else "scale.compu_rational_coeffs.numerators[1]",
+            "denominator": "scale.compu_rational_coeffs.denominators[0]" if has_den in ctx
+            else "1.0",
+            "internal_lower_limit": "scale.lower_limit",
+            "internal_upper_limit": "scale.upper_limit",
+            "internal_type": "internal_type",
+            "physical_type": "physical_type",
+        }
+        for k, w in want_kw.items():
+            got = txt(kws[k]) if k in kws else None
+            if got != w and not (k == "denominator" and w == "1.0" and got in ("1", "1.0")):
+                bad.setdefault(k, f"`{k}` receives `{got}` where `{w}` is expected")
+        iv = txt(kws["inverse_value"]) if "inverse_value" in kws else None
+        if iv not in ("0", "scale.compu_inverse_value.value",
+                      "odxrequire(scale.compu_inverse_value).value"):
+            bad.setdefault("inverse_value", f"`inverse_value` receives `{iv}`")
+    if bad:
+        for k, msg in sorted(bad.items()):
+            run.violation(R, "LinearSegment.from_compu_scale", "cross-wired-" + k
+                          if k not in ("offset", "factor", "denominator") else
+                          "coefficients:" + k, msg + ": the segment computes with the wrong "
+                          "coefficient / limit", g.loc)
     else:
-        run.violation(R, "LinearSegment.from_compu_scale", "limits",
-                      "internal lower/upper limit are not the scale's lower/upper limit", g.loc)
+        run.ok(R, "LinearSegment.from_compu_scale", "offset = numerators[0], factor = "
+               "numerators[1] (0 if absent), denominator = denominators[0] (1 if absent), limits "
+               f"and types passed through ({len(paths)} paths)", g.loc)
 
 
 def horner(prog: Program, run: Run, R: str) -> None:
